@@ -196,6 +196,52 @@ def extra_designs():
         return T
     yield ("det/history/stacks-with-parallel-ports", stacks)
 
+    def shared_stage_noconn():
+        # the library's bundle-ported cell with one bundle port left open, the other reached through a port reference
+        T = h.Module(name="SharedStageNc")
+        T.first = lib()["Pair2"]()
+        T.s1 = lib()["LibStage"](k=1)(inp=T.first, out=h.NoConn())
+        T.s2 = lib()["LibStage"](k=2)(inp=h.NoConn(name="open_in"))
+        T.s3 = lib()["LibStage"](k=2)(inp=T.s2.out, out=h.NoConn())
+        return T
+    yield ("det/history/shared-cell/bundle-ports-no-connect", shared_stage_noconn)
+
+    def opaque_params():
+        # parameter values of types the library knows nothing about (a plain object, a function, a class): refused or
+        # named - the same way in every process
+        from typing import Any
+
+        @h.paramclass
+        class OP:
+            tech = h.Param(dtype=Any, desc="anything", default=None)
+            n = h.Param(dtype=int, desc="n", default=1)
+
+        @h.generator
+        def Amp(p: OP) -> h.Module:
+            m = h.Module()
+            m.a = h.Port()
+            m.r = h.R(r=p.n)(p=m.a, n=m.a)
+            return m
+
+        class Tech:
+            pass
+
+        def corner():
+            return 1
+        T = h.Module(name="OpaqueTop")
+        T.s = h.Signal()
+        outcomes = []
+        for k, v in enumerate((Tech(), corner, Tech, slice(1, 2), range(3), object())):
+            try:
+                T.add(Amp(tech=v, n=k + 1)(a=T.s), name=f"a{k}")
+                outcomes.append("ok")
+            except Exception as e:
+                import re
+                outcomes.append(type(e).__name__ + ":" + re.sub(r"0x[0-9a-fA-F]+", "ADDR", str(e))[:60])
+        T.add(h.R(r=len(outcomes))(p=T.s, n=T.s), name="marker_" + "_".join(o.split(":")[0] for o in outcomes))
+        return T
+    yield ("det/history/opaque-parameter-values", opaque_params)
+
     def set_valued_params():
         # generator parameters holding sets (no order of their own): the generated names must not follow iteration order
         from typing import FrozenSet
@@ -379,8 +425,24 @@ def unrelated_work(rnd, rounds):
         m = h.Module()
         m.a = h.Port()
         return m
-    # shared library cells used by earlier designs: elaborated, exported, netlisted (never compiled) there
+    # the library's bundle-ported cells are first touched by an attempt that FAILS; in every second process that is all the
+    # earlier work they see (in the others a successful export follows)
     for rd in range(min(rounds, 2)):
+        L = lib()
+        # an attempt that FAILS late (array widths, found after bundles were flattened) on a design using the library's
+        # bundle-ported cell: the cell is left partly processed, and stays usable
+        try:
+            Bad = h.Module(name=f"LibBad{rd}")
+            Bad.p, Bad.q = L["Pair2"](), L["Pair2"]()
+            Bad.st = L["LibStage"](k=1)(inp=Bad.p, out=Bad.q)
+            Bad.st2 = L["LibStage"](k=2)(inp=Bad.q, out=h.NoConn())
+            Bad.w3 = h.Signal(width=3)
+            Bad.arr = 2 * h.R(r=1)(p=Bad.w3, n=Bad.w3)
+            h.elaborate(Bad) if rd else h.to_proto(Bad)
+        except Exception:
+            pass
+    # shared library cells used by earlier designs: elaborated, exported, netlisted (never compiled) there
+    for rd in range(min(rounds, 2) if rounds % 2 == 0 else 0):
         try:
             L = lib()
             U = h.Module(name=f"LibUser{rd}")
